@@ -515,7 +515,21 @@ func byzCase(prop string, b byzcfg, first int, nfirst int) harness.Case {
 		}
 		reported := map[string]bool{}
 		report := func(p, clause, sig, detail string, hist []Event) {
-			if p != prop {
+			if relabel != "" {
+				// C12's slice of this search: a violation of agreement or integrity that involves
+				// traffic of a node that is not a participant of the session
+				foreign := false
+				for _, e := range hist {
+					if e.Kind == 'B' && (e.From == b.outsider || e.From == b.unknown) && e.From != 0 {
+						foreign = true
+					}
+				}
+				if !foreign {
+					return
+				}
+				clause = "non-participants-do-not-reach-the-session (" + clause + ")"
+				sig = strings.ToLower(relabel) + "-foreign-traffic:" + sig
+			} else if p != prop {
 				return
 			}
 			c.Add("violating_states:"+sig, 1)
@@ -601,9 +615,14 @@ func hoKey(hs []HO) string {
 
 // ---------------------------------------------------------------------------------------------
 
+var relabel = os.Getenv("VERIF_RELABEL")
+
 func gen(c *harness.C) []harness.Case {
 	prop := os.Getenv("VERIF_PROP")
 	c.Property = prop
+	if relabel != "" {
+		c.Property = relabel
+	}
 	var cases []harness.Case
 	if os.Getenv("VERIF_FAMILY") == "conc" {
 		return concCases(c, prop)
@@ -684,6 +703,9 @@ func gen(c *harness.C) []harness.Case {
 			bs = append(bs, b)
 		}
 		for _, b := range bs {
+			if relabel != "" && b.outsider == 0 && b.unknown == 0 {
+				continue
+			}
 			n := len(b.actions())
 			if b.script != "" {
 				n = 0 // the injections are fixed: one search over the deliveries
